@@ -12,10 +12,11 @@ R-C14.3  HUGR bound: `hugr_bound` is Copyable iff copyable (4-row truth table); 
 R-C14.4  intrinsic table: array never copyable but droppable; qubit neither; bool, str,
          list, Option, frozenarray, SizedIter both; custom_type passes (not copyable, not
          droppable) into the never_* slots.
-R-C14.5  drops: affine builtins are listed in AFFINE_EXTENSION_TYS; requires_drop recurses
-         into type args and sum rows and treats variables by their bound; insert_drops
-         decides per port by calling requires_drop on the port's own type; it is called by
-         CompilerContext.compile.
+R-C14.5  drops: affine builtins are listed in AFFINE_EXTENSION_TYS; requires_drop is interpreted on 148 HUGR type terms
+         (nesting depth 2: affine/plain extension and opaque types, sums, tuples, type variables by bound, function types)
+         against the recursive reference; insert_drops is interpreted on model HUGRs: a drop of the port's own type, under the
+         node's parent, iff the port is a dangling value port whose type needs one (c14_drops.py; match-arm shapes only as
+         fallback); insert_drops is called by CompilerContext.compile on every path.
 R-C14.7  struct types: `copyable`, `hugr_bound` and the bound of the lowered tuple agree when type argument and
          field vary independently (c14_struct.py, below).
 R-C14.6  no cache keyed by the *printed* form of a type (printing is not injective: type
@@ -358,41 +359,44 @@ def run(ctx: Ctx) -> None:
     names = sorted({a.value for a in ast.walk(aff) if isinstance(a, ast.Constant) and isinstance(a.value, str)}) if aff is not None else []
     ctx.check({"array", "borrow_array"} <= set(names), "R-C14.5", f"{cc.name}.AFFINE_EXTENSION_TYS", cc.rel, {"types": names},
               "an affine builtin (array) lowers to a HUGR type that is not in the drop list: unused arrays are never dropped")
-    rd = idx.find_func("requires_drop", cc.name)
-    arms = {}
-    for m in walk_no_nested(rd.node):
-        if isinstance(m, ast.match_case):
-            arms[ast.unparse(m.pattern).split("(")[0]] = m
-    facts = {"arms": sorted(arms)}
-    ok = True
-    for a in ("ht.ExtType", "ht.Opaque"):
-        m = arms.get(a)
-        rec = m is not None and any(call_name(c) == "requires_drop" for b in m.body for c in ast.walk(b) if isinstance(c, ast.Call)) \
-            and any("AFFINE_EXTENSION_TYS" in ast.unparse(b) for b in m.body)
-        facts[a] = rec
+    from . import c14_drops
+    if not c14_drops.run(ctx):
+        # fallback (not interpretable): shape of the match arms of requires_drop and of the guard of the drop insertion
+        rd = idx.find_func("requires_drop", cc.name)
+        arms = {}
+        for m in walk_no_nested(rd.node):
+            if isinstance(m, ast.match_case):
+                arms[ast.unparse(m.pattern).split("(")[0]] = m
+        facts = {"arms": sorted(arms)}
+        ok = True
+        for a in ("ht.ExtType", "ht.Opaque"):
+            m = arms.get(a)
+            rec = m is not None and any(call_name(c) == "requires_drop" for b in m.body for c in ast.walk(b) if isinstance(c, ast.Call)) \
+                and any("AFFINE_EXTENSION_TYS" in ast.unparse(b) for b in m.body)
+            facts[a] = rec
+            ok = ok and rec
+        m = arms.get("ht.Sum")
+        rec = m is not None and any(call_name(c) == "requires_drop" for b in m.body for c in ast.walk(b) if isinstance(c, ast.Call))
+        facts["ht.Sum"] = rec
         ok = ok and rec
-    m = arms.get("ht.Sum")
-    rec = m is not None and any(call_name(c) == "requires_drop" for b in m.body for c in ast.walk(b) if isinstance(c, ast.Call))
-    facts["ht.Sum"] = rec
-    ok = ok and rec
-    m = arms.get("ht.Variable")
-    var_ok = m is not None and "Linear" in ast.unparse(m.body[0]) and "==" in ast.unparse(m.body[0])
-    facts["ht.Variable"] = var_ok
-    ctx.check(ok and var_ok, "R-C14.5", f"{rd.qualname}#recursion", rd.where, facts,
-              "a droppable-but-not-copyable value nested in an extension type / sum / type variable is not recognised as needing a drop")
-    ins = idx.find_func("insert_drops", cc.name)
-    drops = [c for c in calls_in(ins.node, nested=True) if call_name(c) == "drop_op"]
-    ctx.floor("R-C14.5", "drop_op insertions", len(drops), 1)
-    from ..guards import lexical_guards
-    for i, d in enumerate(drops):
-        gs = lexical_guards(ins.node, d) or []
-        arg = ast.unparse(d.args[0]) if d.args else ""
-        direct = any(isinstance(c, ast.Call) and call_name(c) == "requires_drop" and c.args and ast.unparse(c.args[0]) == arg and pol
-                     for e, pol in gs for c in ast.walk(e))
-        ctx.check(direct, "R-C14.5", f"{ins.qualname}#decides-by-requires_drop[{i}]", f"{ins.module.rel}:{d.lineno}",
-                  {"drop_of": arg, "guards": [ast.unparse(e)[:100] for e, _ in gs]},
-                  "whether a dangling port gets a drop is not decided by requires_drop on that port's own type (e.g. through a lookup "
-                  "table): values that need a drop can be left dangling")
+        m = arms.get("ht.Variable")
+        var_ok = m is not None and "Linear" in ast.unparse(m.body[0]) and "==" in ast.unparse(m.body[0])
+        facts["ht.Variable"] = var_ok
+        ctx.check(ok and var_ok, "R-C14.5", f"{rd.qualname}#recursion", rd.where, facts,
+                  "a droppable-but-not-copyable value nested in an extension type / sum / type variable is not recognised as needing a drop")
+        ins = idx.find_func("insert_drops", cc.name)
+        drops = [c for c in calls_in(ins.node, nested=True) if call_name(c) == "drop_op"]
+        ctx.floor("R-C14.5", "drop_op insertions", len(drops), 1)
+        from ..guards import lexical_guards
+        for i, d in enumerate(drops):
+            gs = lexical_guards(ins.node, d) or []
+            arg = ast.unparse(d.args[0]) if d.args else ""
+            direct = any(isinstance(c, ast.Call) and call_name(c) == "requires_drop" and c.args and ast.unparse(c.args[0]) == arg and pol
+                         for e, pol in gs for c in ast.walk(e))
+            ctx.check(direct, "R-C14.5", f"{ins.qualname}#decides-by-requires_drop[{i}]", f"{ins.module.rel}:{d.lineno}",
+                      {"drop_of": arg, "guards": [ast.unparse(e)[:100] for e, _ in gs]},
+                      "whether a dangling port gets a drop is not decided by requires_drop on that port's own type (e.g. through a lookup "
+                      "table): values that need a drop can be left dangling")
     comp = idx.method("CompilerContext", "compile", cc.name)
     g = CFG(comp.node)
     ctx.check(g.every_path_to_exit_passes(calls_any({"insert_drops"})), "R-C14.5", f"{comp.qualname}#calls-insert_drops", comp.where, {},
